@@ -189,14 +189,14 @@ def rpc_framing(ctx):
     logs = rpcconn.record()
     res, rejected, traces = rpcconn.validate(ctx, logs)
     if not res.ok:
-        ctx.violation("rpc framing: %s %s" % (res.kind, res.name),
-                      "a recorded connection of rpcserver.handle_client violates RpcConn.tla", {"logs": logs})
+        ctx.drift("RpcConn", "rpc framing: %s %s - a recorded connection of rpcserver.handle_client violates RpcConn.tla"
+                  % (res.kind, res.name), {"logs": logs})
     for name in rejected:
-        ctx.violation("rpc framing: scenario %s rejected" % name,
-                      "the socket-level events of one connection are not a behaviour of RpcConn.tla "
-                      "(one reply per request in order, error replies for raising handlers, no reply to a line that "
-                      "is not JSON, shutdown exactly once after EOF / protocol error, nothing sent afterwards)",
-                      {"scenario": name, "events": traces[name]})
+        ctx.drift("RpcConn", "rpc framing: scenario %s rejected - "
+                  "the socket-level events of one connection are not a behaviour of RpcConn.tla "
+                  "(one reply per request in order, error replies for raising handlers, no reply to a line that "
+                  "is not JSON, shutdown exactly once after EOF / protocol error, nothing sent afterwards)" % name,
+                  {"scenario": name, "events": traces[name]})
     # sensitivity of the binding: corrupted copies of accepted traces must be rejected
     base = traces["pipelined"]
     bad = {
